@@ -5,11 +5,15 @@ import (
 	"errors"
 	"fmt"
 	"os"
+	"reflect"
 	"regexp"
+	"runtime"
 	"sort"
 	"strings"
+	"time"
 
 	"perkeep.org/pkg/sorted"
+	"perkeep.org/pkg/sorted/sqlkv"
 	"verif/hs"
 	"verif/vk"
 )
@@ -132,9 +136,166 @@ func normPanic(r any) string {
 	return s
 }
 
-func (s *sys) Apply(i int) (m *hs.Mismatch) {
+// Hang safety net. Everything is local and single-threaded (normal cost of a
+// call: microseconds to a few milliseconds), but the machine may be heavily
+// oversubscribed by other checks, so wall time alone proves nothing. A call is
+// declared hung only if, after hangGrace, the goroutine making it is parked on
+// a channel or lock with an unchanged stack while no other goroutine of the
+// process is running or runnable, in hangSamples consecutive samples. The one
+// hang that exists on the unchanged tree (sqlite gate left behind) is
+// recognised without any waiting, see gateLeaked.
+const (
+	hangGrace   = 5 * time.Second
+	hangEvery   = 1 * time.Second
+	hangSamples = 3
+	hangGiveUp  = 10 * time.Minute
+)
+
+var reGoHeader = regexp.MustCompile(`^goroutine (\d+) (?:gp=\S+ m=\S+ (?:mp=\S+ )?)?\[([^\],]+)`)
+
+// workerBlocked inspects all goroutine stacks: it returns the stack of the
+// newest guarded worker if that worker is parked on a channel/lock and nothing
+// else in the process can run; otherwise "".
+func workerBlocked() string {
+	buf := make([]byte, 4<<20)
+	buf = buf[:runtime.Stack(buf, true)]
+	var worker string
+	busy := 0
+	for i, g := range strings.Split(string(buf), "\n\n") {
+		m := reGoHeader.FindStringSubmatch(g)
+		if m == nil {
+			continue
+		}
+		state := m[2]
+		if strings.Contains(g, "c10.(*sys).guarded.func1") {
+			worker = state + "\n" + g[strings.Index(g, "\n")+1:] // later blocks win: newest goroutine last is not guaranteed, so prefer non-parked
+			if !parked(state) {
+				return ""
+			}
+			continue
+		}
+		if i == 0 {
+			continue // the sampler itself (first block is the calling goroutine)
+		}
+		if state == "running" || state == "runnable" || state == "syscall" {
+			busy++
+		}
+	}
+	if worker == "" || busy > 0 {
+		return ""
+	}
+	return worker
+}
+
+func parked(state string) bool {
+	switch state {
+	case "chan send", "chan receive", "select", "semacquire", "sync.Mutex.Lock", "sync.RWMutex.Lock", "sync.RWMutex.RLock", "sync.Cond.Wait", "sync.WaitGroup.Wait", "chan send (nil chan)", "chan receive (nil chan)", "select (no cases)":
+		return true
+	}
+	return false
+}
+
+// guarded runs f in its own goroutine and reports a hang if it is blocked for
+// good; site is read after the fact to name the blocked call.
+func (s *sys) guarded(site *string, f func() *hs.Mismatch) *hs.Mismatch {
+	done := make(chan *hs.Mismatch, 1)
+	go func() { done <- f() }()
+	select {
+	case m := <-done:
+		return m
+	case <-time.After(hangGrace):
+	}
+	start := time.Now()
+	same, last := 0, ""
+	for time.Since(start) < hangGiveUp {
+		select {
+		case m := <-done:
+			return m
+		case <-time.After(hangEvery):
+		}
+		st := workerBlocked()
+		if st != "" && st == last {
+			same++
+		} else {
+			same = 0
+		}
+		last = st
+		if st != "" && same >= hangSamples-1 {
+			break
+		}
+	}
+	s.dead = true // the blocked goroutine still owns the store
+	// the blocked call is the victim, not the culprit (an earlier call left
+	// a lock behind), so the site is not part of the signature
+	return &hs.Mismatch{Kind: "call|hang", Detail: fmt.Sprintf("call blocked for good (parked on a channel/lock with nothing else runnable for %v) in %s", time.Since(start)+hangGrace, *site)}
+}
+
+// gateDemo is how long the demonstration call is given once the sqlite gate is
+// known to be held for good.
+const gateDemo = 150 * time.Millisecond
+
+// gateLeaked reports whether the store (or the backing store of a buffer) is
+// an sqlkv store whose concurrency gate is full although no call, iterator or
+// batch is in progress. The gate of the sqlite store has capacity 1 and
+// nothing can drain it at that point, so every further call on the store
+// blocks forever. (White-box read of sqlkv.KeyValue.Gate; used so that the
+// hang is detected deterministically instead of by a timeout.)
+func (s *sys) gateLeaked() bool {
+	kv := s.in.kv
+	if s.k.buffer {
+		kv = s.in.back
+	}
+	v := reflect.ValueOf(kv)
+	if v.Kind() != reflect.Ptr || v.Elem().Kind() != reflect.Struct {
+		return false
+	}
+	f := v.Elem().FieldByName("KeyValue")
+	if !f.IsValid() || !f.CanInterface() {
+		return false
+	}
+	skv, ok := f.Interface().(*sqlkv.KeyValue)
+	if !ok || skv == nil || skv.Gate == nil {
+		return false
+	}
+	c := reflect.ValueOf(skv.Gate).Elem().FieldByName("c")
+	return c.IsValid() && c.Kind() == reflect.Chan && c.Cap() > 0 && c.Len() == c.Cap()
+}
+
+// hungByGate is called between operations. If the gate is leaked it shows the
+// consequence on a real call (a Get of a key that is not in the buffer layer
+// never returns) and reports the hang.
+func (s *sys) hungByGate() *hs.Mismatch {
+	if s.k.typ != "sqlite" || !s.gateLeaked() {
+		return nil
+	}
+	done := make(chan struct{})
+	kv := s.in.kv
+	go func() { kv.Get("zz-not-a-key"); close(done) }()
+	select {
+	case <-done:
+		return nil // not blocked after all: carry on, the battery decides
+	case <-time.After(gateDemo):
+	}
+	s.dead = true
+	return &hs.Mismatch{Kind: "call|hang", Detail: "the sqlite concurrency gate (capacity 1) is still held although no call, iterator or batch is open, so every further call on the store blocks forever (a Get did not return)"}
+}
+
+func (s *sys) Apply(i int) *hs.Mismatch {
+	if s.dead {
+		return &hs.Mismatch{Kind: "harness|dead", Detail: "operation on a store that already hung or panicked"}
+	}
+	if m := s.hungByGate(); m != nil {
+		return m
+	}
+	site := new(string)
+	return s.guarded(site, func() *hs.Mismatch { return s.apply(i, site) })
+}
+
+func (s *sys) apply(i int, sitep *string) (m *hs.Mismatch) {
 	o := s.ops[i]
 	site := "apply"
+	setSite := func(x string) { site = x; *sitep = x }
+	setSite("apply")
 	defer func() {
 		if r := recover(); r != nil {
 			s.dead = true
@@ -146,19 +307,19 @@ func (s *sys) Apply(i int) (m *hs.Mismatch) {
 	case opMut:
 		mu := o.muts[0]
 		if mu.del {
-			site = "delete"
+			setSite("delete")
 			if err := kv.Delete(keyTab[mu.k].s); err != nil {
 				return &hs.Mismatch{Kind: "delete|error", Detail: fmt.Sprintf("%s returned %v", o, err)}
 			}
 		} else {
-			site = "set"
+			setSite("set")
 			if err := kv.Set(keyTab[mu.k].s, valTab[mu.v].s); err != nil {
 				return &hs.Mismatch{Kind: "set|error", Detail: fmt.Sprintf("%s returned %v (oversize must be skipped silently)", o, err)}
 			}
 		}
 		refApply(s.ref, mu)
 	case opBatch:
-		site = "batch"
+		setSite("batch")
 		b := kv.BeginBatch()
 		for _, mu := range o.muts {
 			if mu.del {
@@ -174,7 +335,7 @@ func (s *sys) Apply(i int) (m *hs.Mismatch) {
 			refApply(s.ref, mu)
 		}
 	case opFlush:
-		site = "flush"
+		setSite("flush")
 		if s.in.bkv == nil {
 			return nil
 		}
@@ -182,7 +343,7 @@ func (s *sys) Apply(i int) (m *hs.Mismatch) {
 			return &hs.Mismatch{Kind: "flush|error", Detail: err.Error()}
 		}
 	case opReopen:
-		site = "reopen"
+		setSite("reopen")
 		return s.reopen()
 	}
 	return nil
@@ -214,7 +375,7 @@ func (s *sys) reopen() *hs.Mismatch {
 	}
 	s.in = in
 	if s.k.buffer {
-		if m := battery(in.back, s.ref, s.uni, true); m != nil {
+		if m := battery(in.back, s.ref, s.uni, true, new(string)); m != nil {
 			m.Kind = "close|backing-" + m.Kind
 			m.Detail = "backing store after buffer Close: " + m.Detail
 			return m
@@ -224,7 +385,11 @@ func (s *sys) reopen() *hs.Mismatch {
 }
 
 func (s *sys) Check() *hs.Mismatch {
-	m := battery(s.in.kv, s.ref, s.uni, false)
+	if m := s.hungByGate(); m != nil {
+		return m
+	}
+	site := new(string)
+	m := s.guarded(site, func() *hs.Mismatch { return battery(s.in.kv, s.ref, s.uni, false, site) })
 	if m != nil && strings.Contains(m.Kind, "|panic") {
 		s.dead = true // an iterator may be left open; do not risk a blocking Close
 	}
@@ -323,8 +488,9 @@ func showPairs(ps []kvPair) string {
 // key of the universe, Find(start,end) for every pair of bounds from the
 // universe plus "" (end "" = unbounded) with the four accessors of every
 // position, Close of every iterator, and one iterator closed early.
-func battery(kv sorted.KeyValue, ref map[string]string, uni []string, light bool) (m *hs.Mismatch) {
+func battery(kv sorted.KeyValue, ref map[string]string, uni []string, light bool, sitep *string) (m *hs.Mismatch) {
 	site := "get"
+	*sitep = site
 	defer func() {
 		if r := recover(); r != nil {
 			m = &hs.Mismatch{Kind: site + "|panic: " + normPanic(r), Detail: fmt.Sprintf("panic during %s: %v", site, r)}
@@ -348,6 +514,7 @@ func battery(kv sorted.KeyValue, ref map[string]string, uni []string, light bool
 		}
 	}
 	site = "find"
+	*sitep = site
 	bounds := append([]string{""}, uni...)
 	if light {
 		bounds = []string{""}
@@ -387,6 +554,7 @@ func battery(kv sorted.KeyValue, ref map[string]string, uni []string, light bool
 	// an iterator need not be read to exhaustion: close one after its first
 	// pair, the store must stay usable
 	site = "find-early-close"
+	*sitep = site
 	it := kv.Find("", "")
 	all := refRange(ref, "", "")
 	if it.Next() {
